@@ -15,6 +15,7 @@ import (
 	"github.com/invopop/gobl/head"
 	"github.com/invopop/gobl/verifharness/internal/corpus"
 	"github.com/invopop/gobl/verifharness/internal/jsontree"
+	"github.com/invopop/gobl/verifharness/internal/pubschema"
 	"github.com/invopop/gobl/verifharness/internal/vh"
 	"pgregory.net/rapid"
 )
@@ -268,6 +269,78 @@ func loadDonors() {
 			}
 		}
 	}
+	// members that the published schemas declare at a position and no example
+	// carries there: a small instance built from the schema stands in as donor
+	s := pubschema.MustLoad()
+	envRoot, _ := s.Root(pubschema.FullID("envelope"))
+	var walk func(b *base, v any, sch pubschema.Node, ptr string)
+	walk = func(b *base, v any, sch pubschema.Node, ptr string) {
+		switch t := v.(type) {
+		case map[string]any:
+			if id, ok := t["$schema"].(string); ok {
+				if r, ok := s.Root(id); ok {
+					sch = r
+				}
+			}
+			names, nodes := s.Props(sch)
+			if strings.HasPrefix(ptr, "/doc") {
+				key := donorKey(b.tree, ptr)
+				if donors[key] == nil {
+					donors[key] = map[string]any{}
+				}
+				for _, name := range names {
+					if _, seen := donors[key][name]; !seen && !strings.HasPrefix(name, "$") {
+						donors[key][name] = schemaSample(s, nodes[name])
+						schemaDonors++
+					}
+				}
+			}
+			for _, name := range names {
+				if child, has := t[name]; has {
+					walk(b, child, nodes[name], ptr+"/"+strings.NewReplacer("~", "~0", "/", "~1").Replace(name))
+				}
+			}
+		case []any:
+			if it, ok := s.Items(sch); ok {
+				for i, e := range t {
+					walk(b, e, it, fmt.Sprintf("%s/%d", ptr, i))
+				}
+			}
+		}
+	}
+	for _, b := range bases {
+		walk(b, b.tree, envRoot, "")
+	}
+}
+
+var schemaDonors int
+
+// schemaSample is a small instance of a member that survives parse and
+// serialise if the member is read at all: lists carry one element, maps one
+// entry, objects their required members.
+func schemaSample(s *pubschema.Set, n pubschema.Node) any {
+	switch s.Kind(n) {
+	case "array":
+		if it, ok := s.Items(n); ok {
+			return []any{schemaSample(s, it)}
+		}
+		return []any{"x"}
+	case "map":
+		return map[string]any{"abc": "ABC"}
+	case "object":
+		if m, ok := s.Sample(n, 0).(map[string]any); ok && len(m) > 0 {
+			return m
+		}
+		// nothing required: give it its first scalar member
+		names, nodes := s.Props(n)
+		for _, name := range names {
+			if k := s.Kind(nodes[name]); k == "scalar" && !strings.HasPrefix(name, "$") {
+				return map[string]any{name: s.Sample(nodes[name], 0)}
+			}
+		}
+		return map[string]any{}
+	}
+	return s.Sample(n, 0)
 }
 
 func editsOf(b *base, yield func(Edit) bool) bool {
@@ -640,8 +713,8 @@ func genEdit(t *rapid.T) Edit {
 
 func init() {
 	vh.Describe(
-		"Bases: every example document, enveloped, calculated and valid (quick: a spread of 1 in 7 plus all non-invoice documents for the exhaustive sweep; thorough: all). Exhaustive single edits of the serialised doc: every leaf altered to another value of its type (amounts: digit and precision; percentages; dates; strings; booleans), every member and element removed, every member that other examples carry at the same position added, arrays swapped / shortened / duplicated; plus rapid sampling of edits over all bases, and random content-preserving re-encodings (member order, whitespace, \\u escapes). Oracle: J(x) = JSON of marshal(parse(x).doc); J equal => validates with the same digest; J different => Digest() differs from head.dig, Validate() fails (with the digest key when everything else validates), and after Calculate() the digest equals the original iff J does. Non-trivial: the edit changes J (it is not normalised away by the parser).",
-		"members the parser does not know are not part of the logical content (they vanish on parse); additions therefore use members other examples carry at the same position",
+		"Bases: every example document, enveloped, calculated and valid (quick: a spread of 1 in 7 plus all non-invoice documents for the exhaustive sweep; thorough: all). Exhaustive single edits of the serialised doc: every leaf altered to another value of its type (amounts: digit and precision; percentages; dates; strings; booleans), every member and element removed, every member that other examples carry at the same position, or that the published schema declares there (a small instance built from the schema: lists with one element, maps with one entry, objects with their required members), added, arrays swapped / shortened / duplicated; plus rapid sampling of edits over all bases, and random content-preserving re-encodings (member order, whitespace, \\u escapes). Oracle: J(x) = JSON of marshal(parse(x).doc); J equal => validates with the same digest; J different => Digest() differs from head.dig, Validate() fails (with the digest key when everything else validates), and after Calculate() the digest equals the original iff J does. Non-trivial: the edit changes J (it is not normalised away by the parser).",
+		"members the parser does not know are not part of the logical content (they vanish on parse); additions therefore use members other examples carry at the same position or the published schemas declare there",
 	)
 	vh.Enum("edits", enumEdits, judgeEdit)
 	vh.Rapid("edits_sampled", 6_000, 600_000, genEdit, judgeEdit)
